@@ -47,6 +47,12 @@ var specs = []Spec{
 	{"x/masterchef/keeper", "Keeper.CollectGasFees", "collectGasFees", true, false, ""},
 	{"x/masterchef/keeper", "Keeper.CollectPerpRevenue", "collectPerpRevenue", true, false, ""},
 	{"x/stablestake/keeper", "Keeper.InterestRateComputation", "interestRateComputation", false, false, ""},
+	{"x/tradeshield/keeper", "msgServer.CancelSpotOrder", "cancelSpotGuards", false, true, ""},
+	{"x/tradeshield/keeper", "msgServer.UpdateSpotOrder", "updateSpotGuards", false, true, ""},
+	{"x/tradeshield/keeper", "msgServer.CancelPerpetualOrder", "cancelPerpGuards", false, true, ""},
+	{"x/tradeshield/keeper", "msgServer.UpdatePerpetualOrder", "updatePerpGuards", false, true, ""},
+	{"x/oracle/keeper", "msgServer.FeedPrice", "feedPriceGuards", false, true, ""},
+	{"x/amm/keeper", "Keeper.ExitPool", "exitPoolGuards", false, true, ""},
 	{"x/perpetual/types", "CalcFundingRate", "calcFundingRate", false, false, ""},
 	{"x/stablestake/types", "Debt.GetTotalLiablities", "debtTotalLiabilities", false, false, ""},
 	{"x/amm/keeper", "Keeper.InternalSwapExactAmountIn", "swapExactInGuards", false, true, ""},
